@@ -118,6 +118,19 @@ CLAIMS = {
              "the implementation's plaquettes (C01 ties those to the model). honeycomb trivalence / colouring properness for *all* n is decided by correspondence for n ≤ 16 plus the "
              "bijection theorem, not yet by a closed Lean proof of the degree count. n_vertical = round(n/√3) is computed exactly in the model (integer inequality).",
         ref="§7 C10"),
+    "C07": dict(
+        technique="Lean 4 proof (Mathlib matrices: entry law, antisymmetry/Hermiticity, det symmetry, charpoly invariance under gauge conjugation and reindexing, explicit similarity H_f = S(2H)S⁻¹) + exact entrywise correspondence",
+        text="Kernel-checked theorems about the executable integer model A (H = (i/4)·A), for every finite vertex type, edge list (parallel edges included) and weights: "
+             "single-bond entries, additivity over the edge list, zero off the edge set, A[k,j] = −A[j,k]; H antisymmetric, purely imaginary and Hermitian; "
+             "det(x−H) = (−1)^n det(−x−H) for all x (spectrum symmetric with multiplicities); a gauge move at a vertex conjugates A by a diagonal sign matrix (no self-loops) "
+             "and every bijective relabelling reindexes it, so the characteristic polynomial is unchanged; the fermionic form satisfies H_f·S = S·(2H) with an explicit invertible S, "
+             "hence charpoly(H_f) = charpoly(2H), and H_f is Hermitian (BdG blocks by definition). Every entry of majorana_hamiltonian (dyadic couplings, exact floats) is compared "
+             "with the model, also after single-vertex gauge moves; the entry law, symmetries, spectra under all gauge moves / random permutations / bisection along each colour, "
+             "bisection halves for perfect-matching colours, BdG structure and the doubled fermionic spectrum are evaluated on the implementation.",
+        note="Trusted: Lean kernel/Mathlib/standard axioms; harness; LAPACK eigvalsh for the numerical spectrum comparisons (1e-9). bisect_lattice's 'opposite halves' clause is "
+             "decided on the implementation, not proved (numpy argsort of the labels is not modelled); the link between the abstract blocks F,D,M of the fermion theorem and "
+             "majorana_to_fermion_ham's slicing is by the numerical check.",
+        ref="§7 C07"),
 }
 
 PENDING_REASON = "check not built yet in this revision (work in progress; see DESIGN.md §7 for the planned Lean model and tie)"
